@@ -110,11 +110,19 @@ def describe(case):
     return {"nontrivial": nontrivial, "classes": classes}
 
 
+def norm(out):
+    """A Grid that is refused at construction is refused - which inconsistency of an ill-formed table is met first (and
+    hence the exception type) may depend on the listing order without the accept/reject outcome doing so."""
+    if isinstance(out, list) and len(out) == 1 and isinstance(out[0], dict) and "construct-raise" in out[0]:
+        return [{"construct-raise": True}]
+    return out
+
+
 def compare(answers, case):
     """answers: list of (label, outcomes)"""
     ref_label, ref = answers[0]
     for label, out in answers[1:]:
-        if out != ref:
+        if norm(out) != norm(ref):
             return ref_label, label
     return None
 
@@ -224,7 +232,7 @@ def run_shard(prop, tier, dseed, shard, n_examples, budget_s):
                 vs = variants(case)
                 fa = fresh_run(vs[int(vi_a[-1])], int(s_a))
                 fb = fresh_run(vs[int(vi_b[-1])], int(s_b))
-                if fa != fb:
+                if norm(fa) != norm(fb):
                     raise Violation("outcome depends on the hash seed or on the order of the face-connection table", run_a=bad[0], run_b=bad[1],
                                     outcome_a=brief(fa), outcome_b=brief(fb), family=case["scenario"].get("family"))
                 ctx.note("mismatch_not_confirmed_in_fresh_interpreters")
